@@ -29,6 +29,7 @@ REQUIRED = {
         'recession:crossing-values-checked': 1000,
         'rise:crossing-values-checked': 1000,
         'rise:line-segment-view-rows-checked': 50,
+        'sessions-with-repeated-steps': 5,
     }
     for tier in ('quick', 'thorough')
 }
@@ -54,7 +55,7 @@ def nontrivial(kind, stats):
     return stats.get('intervals-in-curve', 0) >= 2
 
 
-def check_dataset(ctx, case, via, index):
+def check_dataset(ctx, case, via, index, session=False):
     rec = ctx.rec
     # grid directly after set-zeta-grid
     connection, db, exc = curves_common.build_dataset(ctx, case, 'function')
@@ -67,7 +68,7 @@ def check_dataset(ctx, case, via, index):
             rec.violation(k, w, case, 'dataset')
     if connection is not None:
         connection.close()
-    curves_corpus.run_dataset(ctx, PROPERTY, case, via, index, nontrivial=nontrivial)
+    curves_corpus.run_dataset(ctx, PROPERTY, case, via, index, nontrivial=nontrivial, session=session)
 
 
 def run(ctx):
@@ -81,7 +82,7 @@ def run(ctx):
             if case.get('kind') != 'planted':
                 case['grid_step'] = rng.choice([0.125, 0.25, 0.5, 1.0, 2.0])
             case = put_extreme_on_level(case, rng)
-        check_dataset(ctx, case, 'cli' if i < ncli else 'function', i)
+        check_dataset(ctx, case, 'cli' if i < ncli else 'function', i, session=(i % 4 == 1))
     if s.get('field'):
         from . import c05
         saved = c05.PROPERTY
@@ -96,4 +97,4 @@ def replay(ctx, case, module=None):
     if case.get('kind') == 'field':
         ctx.rec.inconclusive_because('field cases are re-run by the thorough tier')
         return
-    check_dataset(ctx, case, 'function', 0)
+    check_dataset(ctx, case, 'function', 0, session=bool(case.get('session')))
